@@ -111,13 +111,14 @@ func copyDir(src, dst string) error {
 // execution of the history up to a crash point (k < 0: no crash). Returns the index of the
 // in-flight operation (-1: the freeze never triggered) and the directory holding the files.
 type e3exec struct {
-	dir      string
-	inflight int
-	acked    int
-	viol     *Violation
-	trouble  string
-	maxCas   uint64
-	uuid     string
+	dir           string
+	inflight      int
+	acked         int
+	viol          *Violation
+	trouble       string
+	maxCas        uint64
+	uuid          string
+	ackedInflight bool // the operation during which the disk froze nevertheless reported success
 }
 
 func (e *e3) execute(k int64, torn bool, record bool) (x e3exec) {
@@ -225,6 +226,7 @@ func (e *e3) execute(k int64, torn bool, record bool) (x e3exec) {
 			}
 			r := Exec(colls[op.Coll], b, &op, nowUnix(), ctx)
 			if vfs.Frozen() {
+				x.ackedInflight = r.Err == "" && r.Commits > 0 && !isReadKind(op.Kind)
 				break
 			}
 			out := Step(d, &op, &r, env)
@@ -300,6 +302,12 @@ func (e *e3) verify(x e3exec, k int64, torn bool) *Violation {
 	cands := []e3snap{e.snaps[x.acked]}
 	if x.inflight >= 0 && x.inflight+1 < len(e.snaps) {
 		cands = append(cands, e.snaps[x.inflight+1])
+		if x.ackedInflight {
+			// the call returned success although the disk had stopped taking writes: what it
+			// acknowledged must be there after the reopen
+			cands = cands[1:]
+			e.probe("crash.inflight-acknowledged")
+		}
 	}
 	var whys []string
 	for ci, cand := range cands {
@@ -332,6 +340,9 @@ func (e *e3) verify(x e3exec, k int64, torn bool) *Violation {
 		whys = append(whys, why)
 	}
 	desc := "all acknowledged operations applied"
+	if x.ackedInflight {
+		desc = "all acknowledged operations applied, including the one that reported success while the disk had already stopped taking writes"
+	}
 	msg := fmt.Sprintf("%s: the reopened bucket matches neither '%s' (%s)", where, desc, whys[0])
 	if len(whys) > 1 {
 		msg += fmt.Sprintf(" nor 'the in-flight operation entirely applied as well' (%s)", whys[1])
